@@ -151,7 +151,7 @@ func snapshotTree(root string) map[string]string {
 	return out
 }
 
-var c19IDs = []string{"a", "b", "../x", "/etc/passwd", "a/b", "..", ".", "é", "\x00", "a\nb", " ", strings.Repeat("L", 4096), "c:\\d", "%2e%2e%2f", "\xff\xfe"}
+var c19IDs = []string{"a", "b", "./a", "a/", "a//b", "a/../b", "b/.", "../x", "/etc/passwd", "a/b", "..", ".", "é", "\x00", "a\nb", " ", strings.Repeat("L", 4096), "c:\\d", "%2e%2e%2f", "\xff\xfe"}
 
 func genStoreDoc(t *rapid.T, id string) *sbom.Document {
 	doc := &sbom.Document{}
